@@ -121,6 +121,9 @@ class Program:
                 if len(c) == 1: return c[0]
                 if len(c) > 1:
                     want = self.src._generic_heads(m.group(2))
+                    if trait == 'From' and len(want) == 1 and GENERIC_NAME.match(want[0]) and args:
+                        vt = self._value_type(args[0], st)
+                        if vt: want = [vt]
                     c2 = [f for f in c if self.src.trait_args.get(f.impl_span, []) == want]
                     if len(c2) == 1: return c2[0]
                     raise Unsupported(f'ambiguous trait method {callee}: {[x.name for x in c]}')
@@ -164,9 +167,22 @@ class Program:
     def _known_types(self):
         k = getattr(self, '_kt', None)
         if k is None:
-            k = set(self.src.structs) | set(self.src.enums)
+            k = set(self.src.structs) | set(self.src.enums) | set(self.src.tuple_structs)
             self._kt = k
         return k
+
+    def _value_type(self, v, st):
+        if isinstance(v, Int): return v.ty
+        if isinstance(v, Float): return 'f64'
+        if isinstance(v, Bool): return 'bool'
+        if isinstance(v, Char): return 'char'
+        if isinstance(v, Ref):
+            t = st.deref(v)
+            if isinstance(t, StrV) and t.ty == 'str': return '&str'
+            return None
+        if isinstance(v, StrV): return v.ty
+        if isinstance(v, Adt): return v.ty
+        return None
 
     def _runtime_type(self, args, st):
         if not args: return None
@@ -174,5 +190,5 @@ class Program:
         v = st.deref_all(v) if isinstance(v, Ref) else v
         if isinstance(v, Adt): return v.ty
         if isinstance(v, VecV): return 'Vec'
-        if isinstance(v, StrV): return 'str'
+        if isinstance(v, StrV): return v.ty
         return None
